@@ -91,6 +91,16 @@ Theorem C02_annotations_supported_on_live_classes : forall p, prime p -> p < 655
 Proof. exact pcoh_support. Qed.
 Print Assumptions C02_annotations_supported_on_live_classes.
 
+(* the live cocycles are non-trivial and linearly independent: coordinate j vanishes on the simplices inserted before sigma_j
+   and is 1 on sigma_j as long as the class j is alive (triangular shape) *)
+Theorem C02_live_cocycles_independent : forall p, prime p -> p < 65536 -> forall cells, valid cells ->
+  forall m sw pre suf dim_max, cells = pre ++ suf ->
+  let s := run sw (zp_ops p) cells dim_max m pre in
+  (forall t j, vget (nth t (s_ann s) []) j <> 0 -> (j <= t)%nat) /\
+  (forall j, In j (map fst (s_rows s)) -> vget (nth j (s_ann s) []) j = 1).
+Proof. exact pcoh_live_independent. Qed.
+Print Assumptions C02_live_cocycles_independent.
+
 (* the column update of destroy_cocycle kills the pivot coefficient (inverse table of Field_Zp, p prime) *)
 Theorem C02_pivot_coefficient_killed : forall p, prime p -> p < 65536 -> forall a dk x c,
   0 < x < p -> vget a dk = x -> 0 <= vget c dk < p -> vget (upd p a dk (inv_of p x) c) dk = 0.
